@@ -584,7 +584,7 @@ twelve 32-bit words per operand, `ldm`/`stm` with write-back, the callee-saved R
 must not overlap the pushed words), return by `bx lr` (LR must be a Thumb address: bit 0 set, otherwise ARMv6-M
 faults).  Same contract as above; `…_eq_portable` is the portable model at base `2^32` (the 32-bit-word configuration
 of the C++), `…_agrees_aarch64` compares the 384-bit values and the returned carry with the AArch64 routine.  The
-Thumb-1 multiplication, squaring and Montgomery routines (21k straight-line instructions) have no theorem. -/
+Thumb-1 multiplication, squaring and Montgomery routines (21k straight-line instructions) are in `Properties/C03d.lean`. -/
 
 private theorem pow32_12 : ((2 : ℕ) ^ 32) ^ 12 = 2 ^ 384 := by rw [← Nat.pow_mul]
 
